@@ -522,7 +522,7 @@ func runRequest(s reqScenario) core.Result {
 		if exp.notJudged {
 			r.Class = "not-judged(raw text offered to map/struct)"
 		}
-		for _, entry := range []string{"BinaryConv.Do", "HTTPConv.Do"} {
+		for _, entry := range []string{"BinaryConv.Do", "HTTPConv.Do", "BinaryConv.Do,request-served-another-query-before"} {
 			req, _, err := s.request()
 			if err != nil {
 				r.Add("harness|request|build-error", "%s: %v", s, err)
@@ -530,11 +530,19 @@ func runRequest(s reqScenario) core.Result {
 			}
 			var out []byte
 			ctx := context.WithValue(context.Background(), conv.CtxKeyHTTPRequest, req)
-			if entry == "BinaryConv.Do" {
+			if strings.HasPrefix(entry, "BinaryConv.Do") {
 				cv := j2t.NewBinaryConv(s.convOpts())
 				doc := body
 				if s.bodyKind == "form" {
 					doc = nil
+				}
+				if entry != "BinaryConv.Do" {
+					// history of length 2 on one request wrapper: a conversion while the URL carried OTHER query values
+					// (outcome ignored), then the query of this scenario is put in place and the judged conversion runs
+					good := req.Request.URL.RawQuery
+					req.Request.URL.RawQuery = "qk=STALE&f=STALE&u=1&stale_only=1"
+					core.Catch(func() { cv.Do(ctx, reqDesc, doc) })
+					req.Request.URL.RawQuery = good
 				}
 				out, err = cv.Do(ctx, reqDesc, doc)
 			} else {
